@@ -7,8 +7,8 @@ use serde::{Deserialize, Serialize};
 use serde_json::json;
 use std::collections::BTreeSet;
 
-pub const DIRS: &[&str] = &["", "a", "b", "b/b", "a/b", "src", "src/my lib", "d.ir", ".hid", "src/.cache", "ign", "a/ign", "b/a/b", "deep/er/still", "lib.py", "notes.md", "a/x.py", "src/w.toml", "y.rs", "legacy,v1", "c", "w", "o/i", "node_modules/pkg", "target", "vendor", "build", "dist", "__pycache__"];
-pub const FILES: &[&str] = &["x.py", "y.rs", "z.md", "x.js", "m.sh", "name with space.py", "dotted.name.rs", ".hidden.py", "skipme.py", "n.txt", "w.toml"];
+pub const DIRS: &[&str] = &["", "a", "b", "b/b", "a/b", "src", "src/my lib", "d.ir", ".hid", "src/.cache", "ign", "a/ign", "b/a/b", "deep/er/still", "lib.py", "notes.md", "a/x.py", "src/w.toml", "y.rs", "legacy,v1", "c", "w", "o/i", "node_modules/pkg", "target", "vendor", "build", "dist", "__pycache__", "Ign", "a/IGN"];
+pub const FILES: &[&str] = &["x.py", "y.rs", "z.md", "x.js", "m.sh", "name with space.py", "dotted.name.rs", ".hidden.py", "skipme.py", "n.txt", "w.toml", "SkipMe.py", "app.LOG.py"];
 pub const GITIGNORE_LINES: &[&str] = &["ign/", "skipme.*", "/a/x.js", "*.log", "d.ir/y.rs", "!a/ign/x.py"];
 
 #[derive(Clone, Debug, Serialize, Deserialize, Hash, PartialEq, Eq)]
@@ -442,7 +442,7 @@ pub fn check(c: &ScopeCase, probe: &Probe) -> Verdict {
 pub fn case_strategy() -> BoxedStrategy<ScopeCase> {
     let g = || prop_oneof![(0u8..5).prop_map(G::Ext), (0u8..28).prop_map(G::Dir), (0u8..11).prop_map(G::Name), any::<u16>().prop_map(G::Exact)];
     (
-        proptest::collection::vec((prop_oneof![2 => Just(0u8), 2 => Just(2u8), 1 => Just(3u8), 6 => 0u8..29], 0u8..11), 2..14),
+        proptest::collection::vec((prop_oneof![2 => Just(0u8), 2 => Just(2u8), 1 => Just(3u8), 6 => 0u8..31], 0u8..13), 2..14),
         proptest::collection::vec(0u8..6, 0..4),
         proptest::bool::weighted(0.2),
         proptest::collection::vec(g(), 0..4),
@@ -458,7 +458,7 @@ pub fn case_strategy() -> BoxedStrategy<ScopeCase> {
 }
 
 pub fn run(run: &mut Run) {
-    run.rule = "random: a tree of 2..13 files over 29 directories (incl. conventionally skipped names: `node_modules`, `target`, `vendor`, `build`, `dist`, `__pycache__`; a name with a comma, top-level `c`, `w`, `o/i` (git's mnemonic diff prefixes), `a`, `b`, `b/b`, `b/a/b`, a name with a space, a dotted directory, hidden directories, git-ignored directories, directories named like files: `lib.py`, `notes.md`, `a/x.py`, `y.rs`) x 11 file names (5 languages, names with spaces/dots, hidden, git-ignored, unknown suffix), a generated .gitignore (+ optional nested one, + optional `.git/info/exclude`, + optional user-wide ignore file under XDG_CONFIG_HOME), in a third of the cases 1..2 symbolic links to healthy files of the tree plus two symbolic links to a directory whose own names look like source files (`zz_dirlink.py`, `src/chart.js`), 0..3 positional and 0..3 --ignore globs of the four documented forms in four argument orders / spellings (globs first, --ignore first, `--ignore=g` in front of the sub-command, interleaved) (`*.ext`, `dir/**`, `**/name`, exact path), a real `git diff --cached -M` naming 0..3 of the files (each touched inside its block; some of them renamed, so that the `---` and `+++` paths differ) or interactive mode, started from the root or any sub-directory. Every file holds one uniquely named violating block; files outside the reference scope are rewritten as tripwires (unclosed start tag), so examining one fails the run. Reference scope = ((not hidden and not ignored by `git check-ignore --no-index`) and matches a positional glob — everything when interactive without globs) or named in the diff, minus --ignore matches; `*.ext` on nested paths is unspecified. Compared with the key sets of `list` and of the diagnostics. Non-trivial = a top-level directory `b` together with a diff-named file outside every glob / hit by an ignore glob / under `b/`.".into();
+    run.rule = "random: a tree of 2..13 files over 31 directories (incl. two that differ from an ignore pattern in letter case only: `Ign`, `a/IGN`; conventionally skipped names: `node_modules`, `target`, `vendor`, `build`, `dist`, `__pycache__`; a name with a comma, top-level `c`, `w`, `o/i` (git's mnemonic diff prefixes), `a`, `b`, `b/b`, `b/a/b`, a name with a space, a dotted directory, hidden directories, git-ignored directories, directories named like files: `lib.py`, `notes.md`, `a/x.py`, `y.rs`) x 13 file names (5 languages, names with spaces/dots, hidden, git-ignored, unknown suffix, two that differ from an ignore pattern in letter case only), a generated .gitignore (+ optional nested one, + optional `.git/info/exclude`, + optional user-wide ignore file under XDG_CONFIG_HOME), in a third of the cases 1..2 symbolic links to healthy files of the tree plus two symbolic links to a directory whose own names look like source files (`zz_dirlink.py`, `src/chart.js`), 0..3 positional and 0..3 --ignore globs of the four documented forms in four argument orders / spellings (globs first, --ignore first, `--ignore=g` in front of the sub-command, interleaved) (`*.ext`, `dir/**`, `**/name`, exact path), a real `git diff --cached -M` naming 0..3 of the files (each touched inside its block; some of them renamed, so that the `---` and `+++` paths differ) or interactive mode, started from the root or any sub-directory. Every file holds one uniquely named violating block; files outside the reference scope are rewritten as tripwires (unclosed start tag), so examining one fails the run. Reference scope = ((not hidden and not ignored by `git check-ignore --no-index`) and matches a positional glob — everything when interactive without globs) or named in the diff, minus --ignore matches; `*.ext` on nested paths is unspecified. Compared with the key sets of `list` and of the diagnostics. Non-trivial = a top-level directory `b` together with a diff-named file outside every glob / hit by an ignore glob / under `b/`.".into();
     run.assumptions = vec![
         "git's own ignore matcher is the authority on .gitignore semantics; globs are matched by a harness-side matcher for the four documented forms only".into(),
         "default a/ b/ diff prefixes (no --no-prefix), paths free of characters git quotes".into(),
